@@ -2,6 +2,9 @@ package main
 
 import (
 	"fmt"
+	"github.com/gorilla/websocket"
+	"go.nanomsg.org/mangos/v3/transport/ws"
+	"net/http"
 	"reflect"
 	"time"
 
@@ -292,5 +295,53 @@ func c19Semantics(c *Ctx) {
 			_ = proto.Close()
 			_ = p.Close()
 		}
+	}
+}
+
+// WEBSOCKET-CHECKORIGIN on a ws listener: true (the default) refuses a handshake whose Origin header names another host,
+// false admits it — after every sequence of settings, the value GetOption reports is the policy in force
+func c19CheckOrigin(c *Ctx) {
+	for _, seq := range [][]bool{{}, {true}, {false}, {false, true}, {true, false}, {false, true, false}, {false, false, true}} {
+		s, _ := pair.NewSocket()
+		l, err := s.NewListener("ws://127.0.0.1:0/origin", nil)
+		if err != nil {
+			_ = s.Close()
+			continue
+		}
+		hist := []string{}
+		for _, v := range seq {
+			e := l.SetOption(ws.OptionWebSocketCheckOrigin, v)
+			hist = append(hist, fmt.Sprintf("SetOption(CHECKORIGIN,%v)->%s", v, errName(e)))
+		}
+		if l.Listen() != nil {
+			_ = s.Close()
+			continue
+		}
+		check := true // the documented default: the safe policy
+		if len(seq) > 0 {
+			check = seq[len(seq)-1]
+		}
+		if got, err := l.GetOption(ws.OptionWebSocketCheckOrigin); err == nil && len(seq) > 0 && got != check {
+			c.Violate(fmt.Sprintf("ws listener: after %v GetOption(WEBSOCKET-CHECKORIGIN) = %v", hist, got), nil)
+		}
+		d := websocket.Dialer{Subprotocols: []string{"pair.sp.nanomsg.org"}, HandshakeTimeout: 2 * time.Second}
+		hdr := http.Header{}
+		hdr.Set("Origin", "http://somewhere-else.example")
+		conn, _, derr := d.Dial(l.Address(), hdr)
+		obs := "admitted"
+		if derr != nil {
+			obs = "refused"
+		} else {
+			_ = conn.Close()
+		}
+		want := map[bool]string{true: "refused", false: "admitted"}[check]
+		class := fmt.Sprintf("checkorigin seq=%v", seq)
+		c.Class(class, true)
+		c.T.Line("checkorigin", fmt.Sprintf("opt.origin %v", check), obs)
+		if obs != want {
+			c.Violate(fmt.Sprintf("ws listener: with WEBSOCKET-CHECKORIGIN = %v in force (%v) a handshake carrying a foreign Origin header was %s", check, hist, obs),
+				map[string]interface{}{"history": hist, "origin": "http://somewhere-else.example"})
+		}
+		_ = s.Close()
 	}
 }
